@@ -125,10 +125,13 @@ func suiteWrite(tier string, seed uint64, model string) *Report {
 		[]any{map[string]any{"z": []any{int64(1), "s"}, "a": map[string]any{"n": nil}}, " ", 2.5},
 		[]any{}, map[string]any{}, "plain", nil, int64(-5), deepDepth(40), deepDepth(140),
 	}
-	for _, t := range small {
+	for ti, t := range small {
 		for mask := 0; mask < 32; mask++ {
 			for _, ind := range []int{0, 1, 2, 8, 200} {
 				for _, lim := range []int{-1, 1, 7, 64} {
+					if ti >= len(small)-2 && (mask&^3 != 0 || ind == 8 || (ind == 200 && lim != -1)) {
+						continue // the deep trees: indentation clamping matters, the omit/html bits do not
+					}
 					cases = append(cases, cs{t, ind, mask, lim})
 				}
 			}
